@@ -264,12 +264,57 @@ theorem startedLoop_inv (cds : List Path) : ∀ (n : Nat) (parent : Path) (b : B
           · exact h.disjoint d hd ((mem_discard _ _ _).mp hde).1
       · exact ih _ _ _ (by simp [List.length_dropLast, hl]) ⟨h.closed, hres, h.disjoint, hpos⟩
 
+theorem registerStep_inv (cds : List Path) (parent : Path) (b : BD) (h : Inv b)
+    (hc : hasCount b parent = true) :
+    Inv { b with created := add b.created parent, errorCreated := discard b.errorCreated parent,
+                 removedFiles := discard b.removedFiles parent } := by
+  refine ⟨h.closed, ?_, ?_, h.positive⟩
+  · intro d hd
+    rcases (mem_add _ _ _).mp hd with rfl | hd
+    · exact hc
+    · exact h.createdReserved d hd
+  · intro d hd hde
+    have hne := ((mem_discard _ _ _).mp hde).2
+    rcases (mem_add _ _ _).mp hd with rfl | hd
+    · exact hne rfl
+    · exact h.disjoint d hd ((mem_discard _ _ _).mp hde).1
+
+theorem registerUp_inv (cds : List Path) : ∀ (n : Nat) (parent : Path) (b : BD) (locked : List Path),
+    parent.length = n → Inv b → Inv (registerUp b cds parent locked).1 := by
+  intro n
+  induction n with
+  | zero =>
+    intro parent b locked hl h
+    have hp : parent = [] := List.length_eq_zero_iff.mp hl
+    subst hp
+    rw [registerUp]
+    by_cases hc : ((cds.contains [] || b.errorCreated.contains []) && !b.created.contains [] && hasCount b []) = true
+    · simp only [hc, if_true, dite_true]
+      simp only [Bool.and_eq_true] at hc
+      exact registerStep_inv cds [] b h hc.2
+    · simp only [hc, dite_true]; exact h
+  | succ n ih =>
+    intro parent b locked hl h
+    have hpne : parent ≠ [] := by intro e; subst e; simp at hl
+    rw [registerUp]
+    by_cases hc : ((cds.contains parent || b.errorCreated.contains parent) && !b.created.contains parent && hasCount b parent) = true
+    · simp only [hc, if_true, hpne, dite_false]
+      simp only [Bool.and_eq_true] at hc
+      exact ih _ _ _ (by simp [List.length_dropLast, hl]) (registerStep_inv cds parent b h hc.2)
+    · simp only [hc, hpne, dite_false]
+      exact ih _ _ _ (by simp [List.length_dropLast, hl]) h
+
 theorem started_inv (b : BD) (p : Path) (cds : List Path) (h : Inv b) : Inv (started b p cds).1 := by
   unfold started
   cases p with
   | nil => exact ⟨h.closed, h.createdReserved, h.disjoint, h.positive⟩
   | cons a r =>
-    exact startedLoop_inv cds _ _ _ _ rfl ⟨h.closed, h.createdReserved, h.disjoint, h.positive⟩
+    have h1 := startedLoop_inv cds _ (a :: r).dropLast { b with removedFiles := discard b.removedFiles (a :: r) } [] rfl
+      ⟨h.closed, h.createdReserved, h.disjoint, h.positive⟩
+    simp only
+    split
+    · exact h1
+    · exact registerUp_inv cds _ _ _ _ rfl h1
 
 end BuildDirs
 end FB
